@@ -159,7 +159,9 @@ pub trait Read {
     {
         let mut buf = [0; size_of::<u64>()];
         self.read_exact(&mut buf)?;
-        Ok(F::from_canonical_u64(u64::from_le_bytes(buf)))
+        // The bytes come from untrusted input and may encode a value `>= F::ORDER`:
+        // `from_canonical_u64` would hit its debug assertion on it.
+        Ok(F::from_noncanonical_u64(u64::from_le_bytes(buf)))
     }
 
     /// Reads a vector of elements from the field `F` from `self`.
